@@ -574,7 +574,7 @@ def run(chk):
             if not (r['dom'] and r['known'] is None and equal and set(want) <= set(impl[1])):
                 chk.violation(f'pin-{c["pin"]}', dict(payload_of(r), expected_uses=want),
                               f'the non-vacuity input of {c["pin"]} is not inside the theorem\'s hypotheses on the real front end, or model and code disagree on it, or the real output does not use {want}',
-                              no_input=True)
+                              no_input=good)
         if c['lang'] == 'python':
             missing = py_unresolved(r['impl_raw'][1], set(VOCAB['python']) | set(c['info']['generics']))
             tok_missing = sorted(set(impl[1]) - set(impl[2]))
